@@ -2,18 +2,34 @@ module verif/harness
 
 go 1.23.0
 
-require github.com/moov-io/ach v0.0.0
+require (
+	github.com/moov-io/ach v0.0.0
+	github.com/moov-io/base v0.54.3
+)
 
 require (
+	github.com/anishathalye/porcupine v1.3.0
+	github.com/beorn7/perks v1.0.1 // indirect
+	github.com/cespare/xxhash/v2 v2.3.0 // indirect
+	github.com/go-kit/kit v0.13.0 // indirect
+	github.com/go-kit/log v0.2.1 // indirect
+	github.com/go-logfmt/logfmt v0.6.0 // indirect
+	github.com/gorilla/mux v1.8.1 // indirect
 	github.com/igrmk/treemap/v2 v2.0.1 // indirect
-	github.com/moov-io/base v0.54.3 // indirect
 	github.com/moov-io/iso3166 v0.2.1 // indirect
 	github.com/moov-io/iso4217 v0.3.2 // indirect
+	github.com/munnerz/goautoneg v0.0.0-20191010083416-a7dc8b61c822 // indirect
+	github.com/prometheus/client_golang v1.22.0 // indirect
+	github.com/prometheus/client_model v0.6.1 // indirect
+	github.com/prometheus/common v0.62.0 // indirect
+	github.com/prometheus/procfs v0.15.1 // indirect
 	github.com/rickar/cal/v2 v2.1.22 // indirect
 	golang.org/x/exp v0.0.0-20240707233637-46b078467d37 // indirect
 	golang.org/x/net v0.39.0 // indirect
 	golang.org/x/sync v0.13.0 // indirect
+	golang.org/x/sys v0.32.0 // indirect
 	golang.org/x/text v0.24.0 // indirect
+	google.golang.org/protobuf v1.36.5 // indirect
 )
 
 replace github.com/moov-io/ach => /repo
